@@ -721,9 +721,18 @@ func caseC11(c *Ctx) {
 	d2 := s.prepareTarget(c, 2)
 	env := mk(d2)
 	plan.apply(env)
+	if !s.op.FromRoot && plan.ctx.Mode != "deadline" && c.Chance(1, 5) {
+		// the input arrives slowly: one Read takes 30 s of simulated time (no deadline of the
+		// caller's is involved, so nothing may change but the time the call takes)
+		env.Reader.Slow, env.Reader.SlowAt = true, c.Draw(3)
+		c.st.Count("fault.configured:slow-reader")
+	}
 	env.MaxSteps = 40000 + 4*len(s.doc)
 	env.Level2 = level2Build
 	got := c.Sim("main", s.op, env)
+	if got.Probes["reader.slow-read"] > 0 {
+		c.st.Count("fault.fired:slow-reader(30s simulated)")
+	}
 	gotSnap := targetSnap(d2)
 	dropJail(d2)
 
@@ -976,6 +985,12 @@ func caseC12(c *Ctx) {
 		defer removeJail(j)
 	}
 	env := &Env{Doc: doc, Reader: readerPlanFor(c), Writer: noWriterFault, Cb: noCbFault, Disk: d, MaxSteps: 60000 + 4*len(doc)}
+	if c.Chance(1, 6) {
+		// the document arrives slowly (one Read takes 30 s of simulated time): only the time the
+		// call takes may change
+		env.Reader.Slow, env.Reader.SlowAt = true, c.Draw(3)
+		c.st.Count("massive.slow-reader-configured")
+	}
 	preCancelled := massive && c.Chance(1, 10)
 	if preCancelled {
 		// an option value like any other: WithMassive with a context that is cancelled already
